@@ -336,8 +336,8 @@ def jobs(tier):
                                     writer_data={'any': 'correct / unrelated / over-long / half-correct, symbolic'}.get(tag, tag),
                                     declared_length='any integer', chunk_offsets='symbolic')))
     job(1, 2, 2, None, 200)
-    for kinds in ((0, 0), (0, 1), (0, 2), (0, 3), (1, 1)):
-        job(2, 2, 4, kinds, 5000)
+    for kinds in (((0, 0), (0, 1), (0, 2)) if tier == 'quick' else ((0, 0), (0, 1), (0, 2), (0, 3), (1, 1))):
+        job(2, 2, 3 if tier == 'quick' else 4, kinds, 5000)
     if tier == 'thorough':
         job(1, 3, 3, None, 50000)
         for k0 in range(4):
